@@ -66,13 +66,16 @@ pub fn check_at(buf: &[u8], off: usize) -> (Vec<Finding>, bool, &'static str) {
         }
         (Ok(Err(e)), Ok(r)) => {
             nontrivial = true;
-            if r.backward_only {
+            if r.backward_only && r.prior_only {
                 tag = "rejects-valid";
                 out.push(finding(
                     "C06|rejects-valid",
                     format!("decode at {} of {} rejected ({:?}); RFC decoder gives {:?} using only backward pointers", off, hex(buf), e, r.name),
                     mk_case(),
                 ));
+            } else if r.backward_only {
+                // a pointer into the label run it ends is not a prior occurrence; a decoder may refuse it
+                tag = "reject-pointer-into-own-run";
             } else {
                 tag = "reject-forward-pointer";
             }
